@@ -66,6 +66,7 @@ DIACRITICS = {
 # single-byte upper half of the Latin table (CCT 00), only the cells on which ISO 6937-2 and Tech 3264 agree; a value with more
 # than one character lists the acceptable renderings of the same glyph
 LATIN_UPPER = {
+  0xA0: "\u00a0",      # NO-BREAK SPACE: a character of its own, not a blank that may be folded into a run of spaces
   0xA1: "¡", 0xA2: "¢", 0xA3: "£", 0xA5: "¥", 0xA7: "§", 0xA9: "‘", 0xAA: "“", 0xAB: "«",
   0xAC: "←", 0xAD: "↑", 0xAE: "→", 0xAF: "↓",
   0xB0: "°", 0xB1: "±", 0xB2: "²", 0xB3: "³", 0xB4: "×", 0xB5: "µμ", 0xB6: "¶", 0xB7: "·",
@@ -84,7 +85,9 @@ FULL_ASCII = list(range(0x21, 0x7F))
 
 
 def upper_8859(cct, b):
-  """Unicode of upper-half byte b in ISO 8859-5/6/7/8 (letter blocks only, by range formula), None outside them"""
+  """Unicode of upper-half byte b in ISO 8859-5/6/7/8 (NO-BREAK SPACE and the letter blocks, by range formula), None outside them"""
+  if b == 0xA0:
+    return "\u00a0"
   if cct == "01":    # Cyrillic: A1-AC, AE-EF, F1-FC, FE-FF sit at U+0400 + (b - A0)
     if 0xA1 <= b <= 0xFF and b not in (0xAD, 0xF0, 0xFD):
       return chr(0x0400 + b - 0xA0)
